@@ -16,6 +16,8 @@ def check(prog, rep):
     Z.check_validity(prog, rep, fs, entry)
     Z.check_unique_zones(prog, rep, fs, entry)
     Z.check_index_space(prog, rep, fs, entry)
+    Z.check_flatten_order(prog, rep, fs, entry)
+    Z.check_positional_id_use(prog, rep, fs, entry)
     Z.check_crosstab_keys(prog, rep, m, 'crosstab')
     Z.check_crosstab_merge(prog, rep, m, 'crosstab')
     rep.floor('Z1', 3)
